@@ -3709,7 +3709,7 @@ impl XmlUnexpandedEntityReference {
     }
 
     pub fn value(&self) -> error::Result<String> {
-        attr_value_from_name(self.name(), self.context())
+        entity_value_from_name(self.name(), self.context(), false)
     }
 }
 
@@ -4207,23 +4207,37 @@ fn attribute_name(name: &parser::AttributeName) -> (String, Option<String>) {
 }
 
 fn attr_value_from_name(name: &str, context: &Context) -> error::Result<String> {
+    entity_value_from_name(name, context, true)
+}
+
+/// Replacement text of the entity. In an attribute value (`normalize`) every white space
+/// character of the replacement text becomes a space; in content it is included as it is.
+fn entity_value_from_name(name: &str, context: &Context, normalize: bool) -> error::Result<String> {
     let entity = context.entity(name)?;
     let mut parsed = String::new();
     for value in entity.borrow().values().unwrap_or_default() {
         match &value {
-            XmlEntityValue::Character(v, r) => match r {
-                10 => parsed.push(char_from_char10(v)?),
-                16 => parsed.push(char_from_char16(v)?),
-                _ => unreachable!(),
-            },
+            XmlEntityValue::Character(v, r) => {
+                let c = match r {
+                    10 => char_from_char10(v)?,
+                    16 => char_from_char16(v)?,
+                    _ => unreachable!(),
+                };
+                if normalize {
+                    parsed.push_str(normalize_ws(c.to_string().as_str()).as_str());
+                } else {
+                    parsed.push(c);
+                }
+            }
             XmlEntityValue::Entity(v) => {
-                let v = attr_value_from_name(v, context)?;
+                let v = entity_value_from_name(v, context, normalize)?;
                 parsed.push_str(v.as_str());
             }
             XmlEntityValue::Parameter(_) => {
                 unimplemented!("Not support parameter entity reference.")
             }
-            XmlEntityValue::Text(v) => parsed.push_str(normalize_ws(v).as_str()),
+            XmlEntityValue::Text(v) if normalize => parsed.push_str(normalize_ws(v).as_str()),
+            XmlEntityValue::Text(v) => parsed.push_str(v),
         }
     }
     Ok(parsed)
